@@ -128,3 +128,82 @@ PROPERTY_META["C20"] = dict(
                  "memory ordering (Release/Acquire) effects are outside Kani's sequential model"],
     level_note="proof of the sequential contracts and frames; thread isolation follows by a stated lemma resting on thread_local! semantics (not machine-checked); no real concurrency explored",
 )
+
+# =========================================================================== chess-bitboard: Arbitrary impls, C18
+host("chess-bitboard", "chess-bitboard/src/lib.rs", "kani_verif_arb", "harness/chess-bitboard/arb.rs")
+host("chess-bitboard", "chess-bitboard/src/lib.rs", "kani_verif_c18", "harness/chess-bitboard/c18.rs")
+_BB = "chess-bitboard/src/lib.rs"
+CONTRACTS.append(dict(file=_BB, anchor=r"pub fn pop\(&mut self\) -> Option<Pos>", attrs=[
+    "kani::ensures(|r: &Option<Pos>| match r { None => old(self.0) == 0 && self.0 == 0, Some(p) => { let o = old(self.0); let b = 1u64 << (*p as u8); o & b != 0 && o & (b - 1) == 0 && self.0 == o & !b } })",
+    "kani::modifies(self)"]))
+CONTRACTS.append(dict(file=_BB, anchor=r"pub unsafe fn pop_unchecked\(&mut self\) -> Pos", attrs=[
+    "kani::requires(self.0 != 0)",
+    "kani::ensures(|p: &Pos| { let o = old(self.0); let b = 1u64 << (*p as u8); o & b != 0 && o & (b - 1) == 0 && self.0 == o & !b })",
+    "kani::modifies(self)"]))
+CONTRACTS.append(dict(file=_BB, anchor=r"pub fn set\(&mut self, pos: Pos\)", attrs=[
+    "kani::ensures(|_| self.0 == old(self.0) | (1u64 << (pos as u8)))", "kani::modifies(self)"]))
+CONTRACTS.append(dict(file=_BB, anchor=r"pub fn clear\(&mut self, pos: Pos\)", attrs=[
+    "kani::ensures(|_| self.0 == old(self.0) & !(1u64 << (pos as u8)))", "kani::modifies(self)"]))
+_c18 = [
+ ("ctor", "c18_ctor", "from_pos/from_file/from_rank/empty/from_u64/to_u64/contains/From<Pos|File|Rank|u64|Option<T>>: membership of every square q equals q==p / file(q)==f / rank(q)==r / bit q", ["BitBoard::from_pos", "BitBoard::from_file", "BitBoard::from_rank", "BitBoard::empty", "BitBoard::from_u64", "BitBoard::to_u64", "BitBoard::contains", "From<Pos|File|Rank|u64|Option<T>> for BitBoard"], {}),
+ ("setops", "c18_setops", "or and xor diff not, operators | & ^ - ! |= &= ^= -=, with cleared set clear, -Pos, -=Pos, ==: square-wise boolean law for every q, all pairs of boards", ["BitBoard::or", "BitBoard::and", "BitBoard::xor", "BitBoard::diff", "BitBoard::not", "ops.rs operator impls", "BitBoard::with", "BitBoard::cleared", "BitBoard::set", "BitBoard::clear"], {}),
+ ("shifts", "c18_shifts", "shift_up/down/left/right move every square one step, edge squares vanish, nothing wraps; flip_ranks maps q to q^56", ["BitBoard::shift_up", "BitBoard::shift_down", "BitBoard::shift_left", "BitBoard::shift_right", "BitBoard::flip_ranks"], {}),
+ ("count", "c18_count", "count == number of members (64-step count); any/none/all/some; size_hint exact", ["BitBoard::count", "BitBoard::any", "BitBoard::none", "BitBoard::all", "BitBoard::some", "BitBoardIter::size_hint"], {}),
+ ("pop", "c18_pop", "pop / pop_unchecked: returns the lowest member and removes exactly it; None iff empty", ["BitBoard::pop", "BitBoard::pop_unchecked"], {}),
+ ("pop.contract", "c18_pop_contract", "attribute contract on BitBoard::pop (proof_for_contract)", ["BitBoard::pop"], dict(packaging="attribute contract (kani::ensures/modifies woven onto the fn)")),
+ ("pop_unchecked.contract", "c18_pop_unchecked_contract", "attribute contract on BitBoard::pop_unchecked: requires non-empty", ["BitBoard::pop_unchecked"], dict(packaging="attribute contract (kani::requires/ensures/modifies woven onto the fn)")),
+ ("set.contract", "c18_set_contract", "attribute contract on BitBoard::set", ["BitBoard::set"], dict(packaging="attribute contract")),
+ ("clear.contract", "c18_clear_contract", "attribute contract on BitBoard::clear", ["BitBoard::clear"], dict(packaging="attribute contract")),
+ ("iter.next", "c18_iter_next", "BitBoardIter::next yields the lowest member; the iterator then equals the iterator over the rest; size_hint drops by one (induction step for: ascending, each member once, then None)", ["BitBoardIter::next", "BitBoard::iter", "IntoIterator for BitBoard"], {}),
+ ("iter.nth", "c18_iter_nth", "nth(n) == n x next() then next(), same remaining iterator, result has exactly n members below it; all boards, n <= 3 (portable body = core's default Iterator::nth; the bmi2 body is not compiled under Kani)", ["BitBoardIter::nth (default body)"], dict(kind="bounded", bound="n <= 3 (symbolic n over the full range: no result in 15 min)")),
+ ("from_iter", "c18_from_iter", "FromIterator<Pos> / FromIterator<BitBoard>: union of the items", ["FromIterator<Pos> for BitBoard", "FromIterator<BitBoard> for BitBoard"], dict(kind="bounded", bound="iterators of <= 4 squares / <= 3 boards")),
+]
+for n, h, c, f, kw in _c18:
+    d = dict(kind="complete", flags="safety", timeout=600, functions=f, contract=c)
+    d.update(kw)
+    ob("C18." + n, ["C18"], "chess-bitboard", "kani_verif_c18::" + h, **d)
+ob("C18.cover", "C18", "chess-bitboard", "kani_verif_c18::c18_cover", kind="cover", flags="safety", timeout=600, contract="vacuity guard")
+ob("C18.negtwin", "C18", "chess-bitboard", "kani_verif_c18::c18_negtwin", kind="negtwin", expect="refuted", flags="safety", timeout=600,
+   contract="negated twin of the shift_left clause: must be refuted")
+PROPERTY_META["C18"] = dict(
+    level="proof",
+    explanation="Square-wise (set-extensional) contracts on every BitBoard method, operator impl and BitBoardIter method against the plain membership model, for all 2^64 boards and all pairs; loops bounded by the 64-bit width with unwinding assertions on. FromIterator is bounded by iterator length (labelled). The BMI2 fast path of BitBoardIter::nth is NOT in the verified text (cargo kani does not apply -Ctarget-cpu=native and has no model of _pdep_u64).",
+    assumptions=["BitBoardIter::nth: only the portable (default Iterator::nth) body is verified; the cfg(target_feature=bmi2) body using _pdep_u64 is not covered",
+                 "FromIterator obligations bounded to <= 4 items"],
+    level_note="complete for every operation except: FromIterator (bounded by item count) and the BMI2-only body of nth (not covered, tool limit)",
+)
+
+# =========================================================================== C19
+host("chess-bitboard", "chess-bitboard/src/pos.rs", "kani_verif_c19", "harness/chess-bitboard/c19.rs")
+host("chess-movegen", "chess-movegen/src/lib.rs", "kani_verif_c19_move", "harness/chess-movegen/c19_move.rs")
+_c19 = [
+ ("pos_index", "c19_pos_index", "from_u8/to_u8/const_from_u8 inverse on 0..63, None above; Pos::new(file,rank) <-> (file(),rank()); index = 8*rank+file; File/Rank/Color/Side/Piece::from_u8 domains (all 256 bytes)", ["Pos::from_u8", "Pos::to_u8", "Pos::const_from_u8", "Pos::new", "Pos::file", "Pos::rank", "File::from_u8", "Rank::from_u8", "Color::from_u8", "Side::from_u8", "Piece::from_u8"], {}),
+ ("steps", "c19_steps", "shift_up/down/left/right == (file+-1, rank+-1) with None at the edges, mutually inverse; flip_rank involution (rank -> 7-rank); File/Rank shift, flip, dist_to, side, letters", ["Pos::shift_up", "Pos::shift_down", "Pos::shift_left", "Pos::shift_right", "Pos::flip_rank", "File::shift_left", "File::shift_right", "Rank::shift_up", "Rank::shift_down", "Rank::flip", "File::dist_to", "Rank::dist_to", "File::side", "File::lower_letter", "File::upper_letter"], {}),
+ ("parse_byte", "c19_parse_byte", "for all 256 bytes: File::from_ascii_byte accepts exactly a-h/A-H; Rank exactly 1-8; Piece / PromotionPiece exactly their letters in either case", ["File::from_ascii_byte", "Rank::from_ascii_byte", "Piece::from_ascii_byte", "PromotionPiece::from_ascii_byte", "PromotionPiece::to_piece"], {}),
+ ("parse_slice", "c19_parse_slice", "for ALL byte strings of length <= 3: Pos::from_ascii_bytes accepts exactly [file][rank]; File/Rank/Piece/PromotionPiece::from_ascii_bytes exactly one valid byte (longer strings are rejected by the slice-pattern length)", ["Pos::from_ascii_bytes", "File::from_ascii_bytes", "Rank::from_ascii_bytes", "Piece::from_ascii_bytes", "PromotionPiece::from_ascii_bytes"], {}),
+ ("display_roundtrip", "c19_display_roundtrip", "Display of every square / file / rank / promotion piece, written to a byte buffer, parses back to the same value", ["Display for Pos", "Display for File", "Display for Rank", "Display for PromotionPiece"], {}),
+ ("iter.color", "c19_iter_color", "Color::all(): any 3 operations from {next,next_back,nth(n),nth_back(n)} (all n) agree with the slice iterator incl. size_hint", ["AllColorIter"], {}),
+ ("iter.side", "c19_iter_side", "Side::all(): any 3 operations agree with the slice iterator", ["AllSideIter"], {}),
+ ("iter.piece", "c19_iter_piece", "Piece::all(): any 7 operations agree with the slice iterator", ["AllPieceIter"], {}),
+ ("iter.file", "c19_iter_file", "File::all(): any 9 operations agree with the slice iterator (8 items: 9 operations exhaust it)", ["AllFileIter (next_with/unwrap_unchecked)"], {}),
+ ("iter.rank", "c19_iter_rank", "Rank::all(): any 9 operations agree with the slice iterator", ["AllRankIter (next_with/unwrap_unchecked)"], {}),
+ ("iter.squares", "c19_iter_squares", "Pos::all(), File::iter(), Rank::iter(): from an arbitrary internal state next() yields the next square in order, advances by one, size_hint exact (induction step)", ["AllPosIter", "FileIter", "RankIter"], {}),
+]
+for n, h, c, f, kw in _c19:
+    d = dict(kind="complete", flags="safety", timeout=900, functions=f, contract=c)
+    d.update(kw)
+    ob("C19." + n, ["C19"], "chess-bitboard", "pos::kani_verif_c19::" + h, **d)
+ob("C19.cover", "C19", "chess-bitboard", "pos::kani_verif_c19::c19_cover", kind="cover", flags="safety", timeout=600, contract="vacuity guard")
+ob("C19.negtwin", "C19", "chess-bitboard", "pos::kani_verif_c19::c19_negtwin", kind="negtwin", expect="refuted", flags="safety", timeout=600, contract="negated twin: must be refuted")
+ob("C19.move_parse", "C19", "chess-movegen", "kani_verif_c19_move::c19_move_parse", kind="complete", flags="safety", timeout=900,
+   functions=["ChessMove::from_ascii_bytes"],
+   contract="for ALL byte strings of length <= 6: accepted iff `frfr` or `fr-fr` with valid squares; result squares as parsed; piece None (longer strings are rejected by the slice-pattern length)")
+ob("C19.move_roundtrip", "C19", "chess-movegen", "kani_verif_c19_move::c19_move_roundtrip", kind="complete", flags="safety", timeout=900,
+   functions=["Display for ChessMove", "ChessMove::from_ascii_bytes"],
+   contract="all 4096 non-promotion moves: Display -> bytes -> from_ascii_bytes is the identity")
+ob("C19.move_negtwin", "C19", "chess-movegen", "kani_verif_c19_move::c19_move_negtwin", kind="negtwin", expect="refuted", flags="safety", timeout=600, contract="negated twin: must be refuted")
+PROPERTY_META["C19"] = dict(
+    level="proof",
+    explanation="Harness-stated contracts on the real conversion, neighbour-step, parser, Display and iterator code, complete over the finite domains (64 squares, 256 bytes, ALL byte strings up to length 3 for squares / 6 for moves, every operation sequence that can exhaust each iterator). Byte strings longer than the longest accepted shape are rejected by a slice-pattern length test (not enumerated).",
+    assumptions=["byte strings longer than 3 (square parsers) / 6 (move parser) are covered by the slice-pattern length argument, not by enumeration"],
+)
